@@ -415,7 +415,9 @@ def run(tier):
     guard_ns = list(range(0, 41)) + [47, 48, 49, 63, 64, 65, 72, 95, 96, 97, 127, 128, 129, 130]
     mid_plan = ("mid", "mid %s" % ",".join(map(str, mid_ns)), None)
     guard_plan = ("guard", "guard %s" % ",".join(map(str, guard_ns)), None)
-    plans += [mid_plan, guard_plan]
+    # overlapping memmove with large lengths and small distances (a bulk path may only start after kilobytes)
+    bigov_plan = ("bigov", "bigov 4032,4096,4160,8192,65539", {"memmove": 5 * 2 * 75 * 2})
+    plans += [mid_plan, guard_plan, bigov_plan]
     nontrivial = set()
     ncanary = 0
     per_fn = {}
@@ -427,8 +429,8 @@ def run(tier):
     for build, binary in builds.items():
         large_plan = next(pl for pl in plans if pl[0] == "large")
         for tag, cmd, expect in (plans if build in ("debug", "release")
-                                 else [native_plan, large_plan, mid_plan, guard_plan] if build == "native-release"
-                                 else [boundary_plan, large_plan, guard_plan]):
+                                 else [native_plan, large_plan, mid_plan, guard_plan, bigov_plan] if build == "native-release"
+                                 else [boundary_plan, large_plan, guard_plan, bigov_plan]):
             # (a complete plan takes seconds; a hang of the code under test is a TimedOut event)
             recs, status, partial = run_probe(binary, cmd, timeout=90 if quick else 600)
             meta = [r for r in recs if r.get("f") == "meta"]
